@@ -49,8 +49,9 @@ class FnSpec:
 
 
 def parse_tags(s):
+    from tags import expand
     m = re.search(r'\[([^\]]*)\]', s)
-    return m.group(1).split() if m else None
+    return expand(m.group(1).split()) if m else None
 
 
 def parse_sidecar(path):
@@ -103,7 +104,8 @@ def parse_sidecar(path):
             elif kw == 'ret':
                 cur.ret = rest
             elif kw == 'tags':
-                cur.tags = rest.split()
+                from tags import expand
+                cur.tags = expand(rest.split())
             elif kw == 'attr':
                 cur.attrs.append(rest)
             elif kw == 'assume_body':
